@@ -1172,8 +1172,51 @@ def history_scenario(R, mp, rng, sc, sid, thorough):
             drv2.close()
         except Exception:             # noqa: BLE001
             pass
+        # two controllers in one process: the same project downloaded with other symbol instance ids; the
+        # same request strings go to controller 1 and then to controller 2, each held to the full oracle on
+        # ITS controller's memory (nothing learnt from one controller may address the other)
+        sc2 = renumbered(rng, sc)
+        ctx3 = make_ctx(sc2, sid + "/controller2", False)
+        try:
+            ctx["history"] = []
+            for c in range(4 if thorough else 3):
+                nxt = gen_call(rng, ctx, rng.choice([1, 2, 3, 6]))
+                if not nxt:
+                    continue
+                p2, r2 = call3(nxt)
+                for cx, who in ((ctx, "controller1"), (ctx3, "controller2")):
+                    R.count("two_controllers", who)
+                    cx["history"] = ctx["history"]
+                    check_call(R, mp, cx, p2, r2, f"two-controllers#{c}/{who}")
+                    ctx["history"].append({"write to": who, "requests": [t for t, _ in p2[:4]]})
+        finally:
+            close_ctx(ctx3)
     finally:
         close_ctx(ctx)
+
+
+def renumbered(rng, sc):
+    """the same project with the symbol instance ids of its data tags permuted (a later download of the
+    project, or a second controller): names, types, memory contents per NAME are unchanged"""
+    import copy
+    sc2 = copy.deepcopy(sc)
+    groups = {}
+    for g in sc2.tags:
+        if g["kind"] != "o":
+            groups.setdefault((g["prog"], g["inst"] > 65535), []).append(g)
+    new_mem = dict(sc2.mem)
+    for gs in groups.values():
+        if len(gs) < 2:
+            continue
+        ids = [g["inst"] for g in gs]
+        k = rng.randrange(1, len(ids))
+        rot = ids[k:] + ids[:k]
+        for g, i in zip(gs, rot):
+            if g["inst"] in sc.mem:
+                new_mem[i] = sc.mem[g["inst"]]
+            g["inst"] = i
+    sc2.mem = new_mem
+    return sc2
 
 
 def sized_calls(R, mp, rng, large, micro, thorough):
